@@ -58,6 +58,7 @@ func isBackendCall(cm *ssa.CallCommon) bool {
 
 func checkC13(c *Ctx) {
 	p := c.P
+	checkNoKnownNilErrorReturn(c, "R2", func(f *ssa.Function) bool { return inPkg(p, f, "") && f.Parent() == nil }, 20)
 	gt := p.singleImpl("", "Game")
 	if gt == nil {
 		c.Bad("R1", "anchors", "-", "Game implementation not found")
